@@ -25,7 +25,7 @@ ENGINES = {
     "recover": dict(
         path="harness/core_recover.go (with harness/core_types.go core_drive.go core_gen.go core_emit.go) coq/Core/Recover*.v coq/Oracles/CoreC12.v coq/Props/C12.v",
         about="two executions: a generated history on core A stopped at a random step; nodes, applications (force-create), bound allocations incl. placeholders, foreign allocations and outstanding asks read from A's observation and replayed in a random admissible order on a fresh core B, then scheduling cycles; B's totals compared with A's and with the totals the ledger model computes from the knowledge",
-        n=dict(quick=60, thorough=600), shards=dict(quick=1, thorough=4), search_shards=2,
+        n=dict(quick=70, thorough=600), shards=dict(quick=1, thorough=4), search_shards=2,
         kinds={}, classify=_classify, index_div=1000,
     ),
 }
